@@ -32,6 +32,8 @@ def ref_fields(ref):
 
 def judge_exchange(ex, o, stream, closes, last, truncated=False, start=0, il=False):
     """Compare one observed exchange with the reference decode of ``stream``."""
+    if o.get('error') == 'NetworkTimedOut':
+        o = dict(o, error='NetworkError')       # a kind of network error
     ref = rfc7230.decode(stream, ex.get('method', 'GET'), eof=closes, ignore_length=il)
     err = ref['error']
     if err in ('bad-status', 'bad-chunk', 'bad-header'):
@@ -195,6 +197,11 @@ def jobs(tier, seed):
                        ka=True, il=False, tier=tier))
         js.append(dict(kind='light', items=[('lf', 'chunked_ext', b), ('canon', 'cl', b)],
                        ka=True, il=False, tier=tier))
+    # the server falls silent (no EOF) after every prefix and the client's read timeout
+    # fires: an incomplete message must come back as an error, never as a success
+    for it in [('canon', 'close', 'text'), ('canon', 'cl', 'gzip'), ('lf', 'chunked_ext', 'text'),
+               ('canon', 'http10', 'binary'), ('canon', 'chunked1', 'deflate')]:
+        js.append(dict(kind='stall', items=[it], ka=True, il=False, tier=tier))
     js.append(dict(kind='light', items=[('biglf', 'cl', 'text')], ka=True, il=False, tier=tier))
     js.append(dict(kind='light', items=[('biglf', 'chunked_ext', 'text'), ('canon', 'cl', 'text')],
                    ka=True, il=False, tier=tier))
@@ -245,6 +252,24 @@ def run_job(job):
                 record(v, plan, obs, spec)
         res['distinct'].add(h64((tag, 'overrun-first')))
         res['samples'].append(dict(stream=tag, bytes=total, mode='surplus then next exchange'))
+    elif job['kind'] == 'stall':
+        spec_t = dict(spec, timeout=5)
+        for st in range(1, total + 1):
+            plan = dict(cuts=[], stall_after=st)
+            obs, _ = httpharn.run_http(spec_t, plan)
+            res['evaluations'] += 1
+            res['transitions'] += obs['npieces']
+            ok = outcome_key(obs)
+            res['outcomes'][ok] = res['outcomes'].get(ok, 0) + 1
+            res['states'].add(h64((tag, 'stall', st, ok)))
+            # what the server has sent so far, connection still open
+            spec_p = dict(spec_t, exchanges=[dict(spec['exchanges'][0], close=False)])
+            v = judge(spec_p, obs, [streams[0][:st]])
+            if v and len(res['violations']) < 2:
+                record(v, plan, obs, spec_t)
+        res['distinct'].add(h64((tag, 'stall')))
+        res['samples'].append(dict(stream=tag, bytes=total, mode='server silent after every '
+                                                                 'prefix, read timeout'))
     elif job['kind'] == 'light':
         hdr = streams[0].index(b'\n\n') + 2 if b'\r\n\r\n' not in streams[0] else \
             streams[0].index(b'\r\n\r\n') + 4
@@ -361,7 +386,11 @@ def replay(rec):
     spec = rec['spec']
     streams = [e['response'].encode('latin-1') for e in spec['exchanges']]
     obs, _ = httpharn.run_http(spec, rec['plan'])
-    v = judge(spec, obs, streams)
+    if rec['plan'].get('stall_after') is not None:
+        spec_p = dict(spec, exchanges=[dict(spec['exchanges'][0], close=False)])
+        v = judge(spec_p, obs, [streams[0][:rec['plan']['stall_after']]])
+    else:
+        v = judge(spec, obs, streams)
     if v is None and 'pieces' in rec['plan']:
         # search-mode violation "outcome depends on segmentation": compare with one-shot
         obs0, _ = httpharn.run_http(spec, dict(cuts=[]))
